@@ -893,7 +893,79 @@ def rule_o8(ctx, facts):
         ctx.fail_closed("O8: expected the retire loops of transfer (list arm) and treeify_bin, found %d" % n)
 
 
+def rule_o10(ctx, facts, rule="O10"):
+    """a tree bin that is retired whole (`retire_shared`: its Drop frees the nodes AND their values) must not also have the values of its
+    nodes retired one by one -- and a value retired one by one must belong to a container that is released without its values.  A value
+    handed to the collector twice is freed twice."""
+    an = anchors(facts)
+    n = n_whole = 0
+    for b in facts.bodies:
+        fl = flow(b)
+        # tree containers retired whole: retire(x) with x a bin pointer that is also viewed as a TreeBin
+        whole = []
+        for c in b.calls:
+            k = an.is_retire(c)
+            if k is None or b.is_cleanup(c.b) or k >= len(c.args) or callee_str(c).endswith("defer_drop_without_values"):
+                continue
+            x = op_root(c.args[k])
+            if x is None or not str((b.ty(x).get("args") or [""])[-1]).startswith("node::BinEntry"):
+                continue
+            xs = fl.closure_locals(x)
+            views = [v for v in b.calls if callee_str(v).endswith("BinEntry::as_tree_bin") and v.args and op_root(v.args[0]) is not None
+                     and fl.closure_locals(op_root(v.args[0])) & xs]
+            tree_variant = any("agg" not in str(d) for d in [0]) and bool(views)
+            if not tree_variant:
+                # match arm binding: `BinEntry::Tree(ref tree_bin)` -- a reference into the entry downcast to Tree
+                for l in range(len(b.locals)):
+                    if b.ty(l).get("base") == "node::TreeBin" and fl.closure_locals(l) & xs:
+                        tree_variant = True
+                        break
+            if tree_variant:
+                whole.append((c, xs))
+        if not whole:
+            continue
+        n_whole += len(whole)
+        doubled = set()
+        for c in b.calls:
+            k = an.is_retire(c)
+            if k is None or b.is_cleanup(c.b) or k >= len(c.args):
+                continue
+            v = op_root(c.args[k])
+            if v is None or str((b.ty(v).get("args") or [""])[-1]) != "V":
+                continue
+            # the value was loaded from a node reached from the tree bin's own list
+            from_tree = None
+            for rc in fl.call_roots(v):
+                if rc is None or is_reclaim_atomic(rc) != "load" or ("node::Node", "value") not in receiver_field(b, rc, 0):
+                    continue
+                node_ls = fl.closure_locals(op_root(rc.args[0])) if rc.args and op_root(rc.args[0]) is not None else set()
+                for l in node_ls:
+                    for fc in fl.call_roots(l):
+                        if fc is not None and is_reclaim_atomic(fc) == "load" and ("node::TreeBin", "first") in receiver_field(b, fc, 0):
+                            tb_ls = fl.closure_locals(op_root(fc.args[0])) if fc.args and op_root(fc.args[0]) is not None else set()
+                            for wc, xs in whole:
+                                if tb_ls & xs:
+                                    from_tree = wc
+            n += 1
+            if from_tree is None:
+                continue
+            both = c.point in reach(b, after(b, from_tree.point, label="ret")) or from_tree.point in reach(b, after(b, c.point, label="ret"))
+            if both:
+                doubled.add(from_tree.point)
+            ctx.inst(rule, b, "value of a tree node retired once", c.span, not both,
+                     "the container is not retired whole on the same path" if not both else
+                     "the value of a node of the tree bin is retired at %s and the tree bin itself is retired whole at %s (its Drop frees every node "
+                     "together with its value): the value is freed twice" % (c.span, from_tree.span))
+        for wc, _ in whole:
+            if wc.point not in doubled:
+                ctx.inst(rule, b, "tree bin retired whole", wc.span, True, "none of its nodes' values is retired one by one in this body")
+    if not n_whole:
+        ctx.fail_closed("%s: no tree bin is retired whole anywhere (clear's tree arm was expected)" % rule)
+
+
 def run(ctx, facts):
+    ctx.rule("O10", "a tree bin retired whole (its Drop frees nodes and values) does not also have its nodes' values retired one by one", floor=1)
+    rule_o10(ctx, facts)
     ctx.rule("O9", "lock -> re-validate the head -> only then unlink and retire (rule L1 of C01): a removal carried out on a bin that a resize "
                    "has superseded retires a value that the new table's copy of the entry still shares", floor=11)
     from .rules_c01 import rule_l1
